@@ -50,12 +50,15 @@ Definition documented_world (W : world) : Prop :=
   (forall b en e, decode W b en = DecRaise e -> e = E_UnicodeDecodeError \/ e = E_LookupError).
 
 Definition no_escape (ld : loader) : Prop :=
-  forall full o n sr tr, match ld full o n sr tr with Escapes _ _ => False | _ => True end.
+  forall full anc o n sr tr, match ld full anc o n sr tr with Escapes _ _ => False | _ => True end.
 
 Lemma caught_documented e : documented_exn e -> is_caught e = true.
 Proof. intros [-> | ->]; vm_compute; reflexivity. Qed.
 
 Lemma caught_none : is_caught raised_on_none = true.
+Proof. vm_compute. reflexivity. Qed.
+
+Lemma caught_cycle : is_caught raised_on_cycle = true.
 Proof. vm_compute. reflexivity. Qed.
 
 Lemma caught_join : join_guarded = true /\ is_caught E_ValueError = true.
@@ -92,9 +95,9 @@ Definition import_ok (r : rrule) : Prop :=
 
 (* one assignment of href: whatever a documented fetcher does the assignment returns, and a failed load leaves
    hrefFound = False with an empty sheet *)
-Lemma set_href_contained_lemma ld W cwd base override parent h tr :
+Lemma set_href_contained_lemma ld W cwd base anc override parent h tr :
   no_escape ld -> documented_world W ->
-  match set_href ld W cwd base override parent h tr with
+  match set_href ld W cwd base anc override parent h tr with
   | Escapes _ _ => False
   | OutOfDepth => True
   | Normal (l, _) => (l_found l = false -> l_rules l = [])
@@ -105,11 +108,12 @@ Proof.
   destruct caught_join as [Hg Hv].
   destruct (urljoin _ h) as [full|].
   2:{ rewrite Hg, Hv. simpl. auto. }
+  destruct (cycle_guard && mem_str (raw full) anc). { rewrite caught_cycle. simpl. auto. }
   destruct (readurl W override parent _) as [ | used enctype t | e] eqn:Er.
   - rewrite caught_none. simpl. auto.
   - destruct (split_enc enctype used) as [eo en].
-    specialize (Hld full (opt_truthy eo) (opt_truthy en) (parse W t) (raw full :: tr)).
-    destruct (ld _ _ _ _ _) as [[rules tr2] | e tr2 | ]; auto; try contradiction.
+    specialize (Hld full (raw full :: anc) (opt_truthy eo) (opt_truthy en) (parse W t) (raw full :: tr)).
+    destruct (ld _ _ _ _ _ _) as [[rules tr2] | e tr2 | ]; auto; try contradiction.
     destruct (finish_encoding_some W eo en rules) as [r ->]. simpl. discriminate.
   - rewrite (readurl_raise_caught _ _ _ _ _ _ HW Er). simpl. auto.
 Qed.
@@ -140,51 +144,51 @@ Definition good (r : res (list rrule * trace)) (P : list rrule -> Prop) : Prop :
   | Normal (rules, _) => P rules
   end.
 
-Lemma items_loop_contained ld W cwd base override newenc :
+Lemma items_loop_contained ld W cwd base anc override newenc :
   no_escape ld -> documented_world W ->
   forall items expected acc tr,
     Forall import_ok acc ->
-    good (items_loop ld W cwd base override newenc items expected acc tr)
+    good (items_loop ld W cwd base anc override newenc items expected acc tr)
          (fun rules => import_hrefs rules = import_hrefs acc ++ placed items expected /\ Forall import_ok rules).
 Proof.
   intros Hld HW. induction items as [ | it rest IH]; intros expected acc tr Hacc.
   - simpl. rewrite app_nil_r. auto.
   - simpl. destruct it as [h media | u | sel p | t].
-    + pose proof (set_href_contained_lemma ld W cwd base override (parent_encoding newenc acc) h tr Hld HW) as H1.
-      destruct (set_href ld W cwd base override (parent_encoding newenc acc) h tr) as [[l tr1] | e tr1 | ];
+    + pose proof (set_href_contained_lemma ld W cwd base anc override (parent_encoding newenc acc) h tr Hld HW) as H1.
+      destruct (set_href ld W cwd base anc override (parent_encoding newenc acc) h tr) as [[l tr1] | e tr1 | ];
         try contradiction; simpl; auto.
       destruct (negb (nonempty (raw h))); [apply IH; auto|].
       destruct (N.ltb 1 expected); [apply IH; auto|].
       destruct (l_found l) eqn:Ef.
       * specialize (IH 1%N (acc ++ [mk_import h media l]) tr1).
-        destruct (items_loop _ _ _ _ _ _ rest _ _ _) as [[rules tr2] | | ]; simpl in *; auto.
+        destruct (items_loop _ _ _ _ _ _ _ rest _ _ _) as [[rules tr2] | | ]; simpl in *; auto.
         -- destruct IH as [IH1 IH2].
            { apply Forall_app; split; auto. constructor; auto. simpl. congruence. }
            split; auto. rewrite IH1, import_hrefs_app. simpl. rewrite <- app_assoc. reflexivity.
         -- apply IH. apply Forall_app; split; auto. constructor; auto. simpl. congruence.
-      * pose proof (set_href_contained_lemma ld W cwd base override
+      * pose proof (set_href_contained_lemma ld W cwd base anc override
                       (parent_encoding newenc (acc ++ [mk_import h media l])) h tr1 Hld HW) as H2.
-        destruct (set_href ld W cwd base override _ h tr1) as [[l2 tr2] | e tr2 | ]; try contradiction; simpl; auto.
+        destruct (set_href ld W cwd base anc override _ h tr1) as [[l2 tr2] | e tr2 | ]; try contradiction; simpl; auto.
         specialize (IH 1%N (acc ++ [mk_import h media l2]) tr2).
         assert (Hok : Forall import_ok (acc ++ [mk_import h media l2])).
         { apply Forall_app; split; auto; constructor; simpl; auto. }
-        destruct (items_loop _ _ _ _ _ _ rest _ _ _) as [[rules tr3] | | ]; simpl in *; auto.
+        destruct (items_loop _ _ _ _ _ _ _ rest _ _ _) as [[rules tr3] | | ]; simpl in *; auto.
         destruct (IH Hok) as [IH1 IH2]. split; auto.
         rewrite IH1, import_hrefs_app. simpl. rewrite <- app_assoc. reflexivity.
     + destruct (N.ltb 2 expected).
       * apply IH; auto.
       * specialize (IH 2%N (acc ++ [RNamespace u]) tr).
-        destruct (items_loop _ _ _ _ _ _ rest _ _ _) as [[rules tr2] | | ]; simpl in *; auto.
+        destruct (items_loop _ _ _ _ _ _ _ rest _ _ _) as [[rules tr2] | | ]; simpl in *; auto.
         -- destruct IH as [IH1 IH2]. { apply Forall_app; split; auto. constructor; simpl; auto. }
            split; auto. rewrite IH1, import_hrefs_app. simpl. rewrite app_nil_r. reflexivity.
         -- apply IH. apply Forall_app; split; auto. constructor; simpl; auto.
     + specialize (IH 3%N (acc ++ [RStyle sel p]) tr).
-      destruct (items_loop _ _ _ _ _ _ rest _ _ _) as [[rules tr2] | | ]; simpl in *; auto.
+      destruct (items_loop _ _ _ _ _ _ _ rest _ _ _) as [[rules tr2] | | ]; simpl in *; auto.
       * destruct IH as [IH1 IH2]. { apply Forall_app; split; auto. constructor; simpl; auto. }
         split; auto. rewrite IH1, import_hrefs_app. simpl. rewrite app_nil_r. reflexivity.
       * apply IH. apply Forall_app; split; auto. constructor; simpl; auto.
     + specialize (IH (N.max 1 expected) (acc ++ [RComment t]) tr).
-      destruct (items_loop _ _ _ _ _ _ rest _ _ _) as [[rules tr2] | | ]; simpl in *; auto.
+      destruct (items_loop _ _ _ _ _ _ _ rest _ _ _) as [[rules tr2] | | ]; simpl in *; auto.
       * destruct IH as [IH1 IH2]. { apply Forall_app; split; auto. constructor; simpl; auto. }
         split; auto. rewrite IH1, import_hrefs_app. simpl. rewrite app_nil_r. reflexivity.
       * apply IH. apply Forall_app; split; auto. constructor; simpl; auto.
@@ -193,11 +197,11 @@ Qed.
 Lemma parse_src_no_escape fuel W cwd :
   documented_world W -> no_escape (loader_at fuel W cwd).
 Proof.
-  intros HW. induction fuel as [ | f IH]; intros full o n sr tr; unfold loader_at; simpl; auto.
-  pose proof (items_loop_contained (loader_at f W cwd) W cwd (Some full) o n IH HW (s_items sr)
+  intros HW. induction fuel as [ | f IH]; intros full anc o n sr tr; unfold loader_at; simpl; auto.
+  pose proof (items_loop_contained (loader_at f W cwd) W cwd (Some full) anc o n IH HW (s_items sr)
                 (initial_expected sr) (initial_rules sr) tr) as H.
   unfold loader_at in H.
-  destruct (items_loop _ _ _ _ _ _ _ _ _ _) as [[rules tr2] | | ]; auto.
+  destruct (items_loop _ _ _ _ _ _ _ _ _ _ _) as [[rules tr2] | | ]; auto.
   apply H. unfold initial_rules. destruct (s_charset sr); repeat constructor.
 Qed.
 
@@ -231,10 +235,10 @@ Lemma parse_contained_lemma fuel W cwd base override sr :
 Proof.
   intros HW. unfold parse_string.
   destruct fuel as [ | f]; simpl; auto.
-  pose proof (items_loop_contained (loader_at f W cwd) W cwd base (opt_truthy override) None
+  pose proof (items_loop_contained (loader_at f W cwd) W cwd base (top_chain base) (opt_truthy override) None
                 (parse_src_no_escape f W cwd HW) HW (s_items sr) (initial_expected sr) (initial_rules sr) []) as H.
   unfold loader_at in H.
-  destruct (items_loop _ _ _ _ _ _ _ _ _ _) as [[rules tr2] | | ]; simpl in *; auto.
+  destruct (items_loop _ _ _ _ _ _ _ _ _ _ _) as [[rules tr2] | | ]; simpl in *; auto.
   - destruct H as [H1 H2]. { unfold initial_rules. destruct (s_charset sr); repeat constructor. }
     destruct (finish_encoding_some W override None rules) as [r Hr]. rewrite Hr. simpl.
     destruct (finish_encoding_hrefs _ _ _ _ _ Hr) as [H3 H4].
@@ -243,23 +247,25 @@ Proof.
 Qed.
 
 (* ------------------------------------------------------------------ nested imports resolve against the imported sheet *)
-Lemma nested_base_url_lemma f W cwd b override parent h tr l tr' :
-  set_href (loader_at f W cwd) W cwd (Some b) override parent h tr = Normal (l, tr') ->
+Lemma nested_base_url_lemma f W cwd b anc override parent h tr l tr' :
+  set_href (loader_at f W cwd) W cwd (Some b) anc override parent h tr = Normal (l, tr') ->
   l_found l = true ->
   exists full used enctype t rules,
     urljoin b h = Some full /\ l_href l = Some (raw full) /\
     readurl W override parent (fetch W tr (raw full)) = RdOk used enctype t /\
-    parse_src f W cwd (Some full) (opt_truthy (fst (split_enc enctype used))) (opt_truthy (snd (split_enc enctype used)))
-              (parse W t) (raw full :: tr) = Normal (rules, tr').
+    parse_src f W cwd (Some full) (raw full :: anc) (opt_truthy (fst (split_enc enctype used)))
+              (opt_truthy (snd (split_enc enctype used))) (parse W t) (raw full :: tr) = Normal (rules, tr').
 Proof.
   unfold set_href. intros H Hf.
   destruct (negb (nonempty (raw h))). { inversion H; subst. discriminate. }
   destruct (urljoin b h) as [full|].
   2:{ destruct join_guarded; [destruct (is_caught E_ValueError)|]; inversion H; subst; discriminate. }
+  destruct (cycle_guard && mem_str (raw full) anc).
+  { destruct (is_caught raised_on_cycle); inversion H; subst; discriminate. }
   destruct (readurl W override parent _) as [ | used enctype t | e] eqn:Er.
   - destruct (is_caught raised_on_none); inversion H; subst; discriminate.
   - destruct (split_enc enctype used) as [eo en] eqn:Es. unfold loader_at in H.
-    destruct (parse_src f W cwd (Some full) _ _ _ _) as [[rules tr2] | e tr2 | ] eqn:Ep; try discriminate.
+    destruct (parse_src f W cwd (Some full) _ _ _ _ _) as [[rules tr2] | e tr2 | ] eqn:Ep; try discriminate.
     + destruct (finish_encoding W eo en rules) as [r | ].
       * inversion H; subst. exists full, used, enctype, t, rules. rewrite Es. simpl. auto.
       * destruct (is_caught E_AttributeError); inversion H; subst; discriminate.
@@ -518,4 +524,346 @@ Proof.
     rewrite Hm. destruct (forallb wrappable (flatten sub)) eqn:Hw.
     + exfalso. eapply wrappable_in_not_import; eauto.
     + right. left. reflexivity.
+Qed.
+
+(* ------------------------------------------------------------------ termination (needs the cycle guard of _setHref) *)
+(* the fetcher serves content at the URLs of `universe` only (any finite list; duplicates allowed) *)
+Definition served (W : world) (universe : list str) : Prop :=
+  forall tr u http c, fetch W tr u = OContent http c -> In u universe.
+
+(* URLs of the universe that are not yet in the import chain *)
+Definition remaining (universe anc : list str) : nat :=
+  length (filter (fun u => negb (mem_str u anc)) universe).
+
+Local Arguments mem_str : simpl never.
+
+Lemma mem_str_cons u x anc : mem_str u (x :: anc) = eqs u x || mem_str u anc.
+Proof. reflexivity. Qed.
+
+Lemma remaining_le universe anc x : remaining universe (x :: anc) <= remaining universe anc.
+Proof.
+  unfold remaining. induction universe as [ | a l IH]; simpl; [lia|].
+  rewrite mem_str_cons. destruct (eqs a x), (mem_str a anc); simpl; lia.
+Qed.
+
+Lemma remaining_decr universe anc x :
+  In x universe -> mem_str x anc = false -> remaining universe (x :: anc) < remaining universe anc.
+Proof.
+  intros Hin Hm. induction universe as [ | a l IH]; [destruct Hin|].
+  destruct Hin as [-> | Hin].
+  - pose proof (remaining_le l anc x) as Hle. unfold remaining in *. simpl.
+    rewrite mem_str_cons, eqs_refl, Hm. simpl. lia.
+  - specialize (IH Hin). unfold remaining in *. simpl.
+    rewrite mem_str_cons. destruct (eqs a x), (mem_str a anc); simpl; lia.
+Qed.
+
+Lemma remaining_bound universe anc : remaining universe anc <= length universe.
+Proof.
+  unfold remaining. induction universe as [ | a l IH]; simpl; [lia|].
+  destruct (negb (mem_str a anc)); simpl; lia.
+Qed.
+
+Definition no_depth_ld (universe anc : list str) (ld : loader) : Prop :=
+  forall full o n sr tr, In (raw full) universe -> mem_str (raw full) anc = false ->
+                         ld full (raw full :: anc) o n sr tr <> OutOfDepth.
+
+Lemma readurl_ok_content W override parent o used enctype t :
+  readurl W override parent o = RdOk used enctype t -> exists http c, o = OContent http c.
+Proof. destruct o; simpl; try discriminate. eauto. Qed.
+
+Lemma set_href_no_depth ld W cwd base anc override parent h tr universe :
+  served W universe -> no_depth_ld universe anc ld ->
+  set_href ld W cwd base anc override parent h tr <> OutOfDepth.
+Proof.
+  intros Hs Hld. unfold set_href.
+  destruct (negb (nonempty (raw h))); [discriminate|].
+  destruct (urljoin _ h) as [full|].
+  2:{ destruct join_guarded; [destruct (is_caught E_ValueError)|]; discriminate. }
+  destruct (cycle_guard && mem_str (raw full) anc) eqn:Ec.
+  { destruct (is_caught raised_on_cycle); discriminate. }
+  unfold cycle_guard in Ec. simpl in Ec.
+  destruct (readurl W override parent _) as [ | used enctype t | e] eqn:Er.
+  - destruct (is_caught raised_on_none); discriminate.
+  - destruct (readurl_ok_content _ _ _ _ _ _ _ Er) as [http [c Hc]].
+    destruct (split_enc enctype used) as [eo en].
+    specialize (Hld full (opt_truthy eo) (opt_truthy en) (parse W t) (raw full :: tr) (Hs _ _ _ _ Hc) Ec).
+    destruct (ld _ _ _ _ _ _) as [[rules tr2] | e tr2 | ]; try contradiction.
+    + destruct (finish_encoding W eo en rules); [discriminate|]. destruct (is_caught E_AttributeError); discriminate.
+    + destruct (is_caught e); discriminate.
+  - destruct (is_caught e); discriminate.
+Qed.
+
+Lemma items_loop_no_depth ld W cwd base anc override newenc universe :
+  served W universe -> no_depth_ld universe anc ld ->
+  forall items expected acc tr,
+    items_loop ld W cwd base anc override newenc items expected acc tr <> OutOfDepth.
+Proof.
+  intros Hs Hld. induction items as [ | it rest IH]; intros expected acc tr; simpl; [discriminate|].
+  destruct it as [h media | u | sel p | t]; try apply IH.
+  - pose proof (set_href_no_depth ld W cwd base anc override (parent_encoding newenc acc) h tr universe Hs Hld) as H1.
+    destruct (set_href ld W cwd base anc override (parent_encoding newenc acc) h tr) as [[l tr1] | e tr1 | ];
+      try discriminate; try contradiction.
+    destruct (negb (nonempty (raw h))); [apply IH|].
+    destruct (N.ltb 1 expected); [apply IH|].
+    destruct (l_found l); [apply IH|].
+    pose proof (set_href_no_depth ld W cwd base anc override
+                  (parent_encoding newenc (acc ++ [mk_import h media l])) h tr1 universe Hs Hld) as H2.
+    destruct (set_href ld W cwd base anc override _ h tr1) as [[l2 tr2] | e tr2 | ];
+      try discriminate; try contradiction.
+    apply IH.
+  - destruct (N.ltb 2 expected); apply IH.
+Qed.
+
+(* fuel above the number of universe URLs outside the chain is never exhausted *)
+Lemma parse_src_no_depth W cwd universe :
+  served W universe ->
+  forall fuel base anc override newenc sr tr,
+    remaining universe anc < fuel ->
+    parse_src fuel W cwd base anc override newenc sr tr <> OutOfDepth.
+Proof.
+  intros Hs. induction fuel as [ | f IH]; intros base anc override newenc sr tr Hr; [lia|].
+  simpl. apply (items_loop_no_depth _ W cwd base anc override newenc universe Hs).
+  intros full o n sr' tr' Hin Hm. apply IH.
+  pose proof (remaining_decr universe anc (raw full) Hin Hm). lia.
+Qed.
+
+Lemma parse_terminates_lemma W cwd universe base override sr fuel :
+  documented_world W -> served W universe -> length universe < fuel ->
+  exists rules tr,
+    parse_string fuel W cwd base override sr = Normal (rules, tr) /\
+    import_hrefs rules = placed (s_items sr) (initial_expected sr) /\ Forall import_ok rules.
+Proof.
+  intros HW Hs Hf.
+  pose proof (parse_contained_lemma fuel W cwd base override sr HW) as Hg.
+  assert (Hd : parse_string fuel W cwd base override sr <> OutOfDepth).
+  { unfold parse_string.
+    pose proof (parse_src_no_depth W cwd universe Hs fuel base (top_chain base) (opt_truthy override) None sr []) as Hn.
+    destruct (parse_src fuel W cwd base (top_chain base) (opt_truthy override) None sr []) as [[rules tr] | e tr | ].
+    - destruct (finish_encoding W override None rules); discriminate.
+    - discriminate.
+    - exfalso. apply Hn; [ | reflexivity]. pose proof (remaining_bound universe (top_chain base)). lia. }
+  destruct (parse_string fuel W cwd base override sr) as [[rules tr] | e tr | ]; simpl in Hg; try contradiction.
+  exists rules, tr. tauto.
+Qed.
+
+(* ------------------------------------------------------------------ the fetcher is the only source of content *)
+Definition suffix (l tr : trace) : Prop := exists p, tr = p ++ l.
+
+Lemma suffix_refl l : suffix l l.
+Proof. exists []. reflexivity. Qed.
+
+Lemma suffix_cons x l tr : suffix (x :: l) tr -> suffix l tr.
+Proof. intros [p ->]. exists (p ++ [x]). rewrite <- app_assoc. reflexivity. Qed.
+
+Lemma suffix_trans a b c : suffix a b -> suffix b c -> suffix a c.
+Proof. intros [p ->] [q ->]. exists (q ++ p). rewrite app_assoc. reflexivity. Qed.
+
+Lemma suffix_step x l : suffix l (x :: l).
+Proof. exists [x]. reflexivity. Qed.
+
+Definition rtrace {A} (r : res (A * trace)) : option trace :=
+  match r with Normal (_, t) => Some t | Escapes _ t => Some t | OutOfDepth => None end.
+
+(* a result only adds calls to the trace it started from *)
+Definition extends {A} (r : res (A * trace)) (tr : trace) : Prop := forall t, rtrace r = Some t -> suffix tr t.
+
+Definition ld_extends (ld : loader) : Prop := forall full anc o n sr t, extends (ld full anc o n sr t) t.
+
+Lemma raise_trace (e : exn) (t : trace) (l : loaded) :
+  rtrace (if is_caught e then Normal (l, t) else Escapes e t) = Some t.
+Proof. destruct (is_caught e); reflexivity. Qed.
+
+Lemma set_href_extends ld W cwd base anc override parent h tr :
+  ld_extends ld -> extends (set_href ld W cwd base anc override parent h tr) tr.
+Proof.
+  intros Hld t. unfold set_href.
+  destruct (negb (nonempty (raw h))). { simpl. intros H; inversion H; apply suffix_refl. }
+  destruct (urljoin _ h) as [full|].
+  2:{ destruct join_guarded; [rewrite raise_trace | simpl]; intros H; inversion H; apply suffix_refl. }
+  destruct (cycle_guard && mem_str (raw full) anc). { rewrite raise_trace. intros H; inversion H; apply suffix_refl. }
+  destruct (readurl W override parent _) as [ | used enctype t0 | e].
+  - rewrite raise_trace. intros H; inversion H; apply suffix_step.
+  - destruct (split_enc enctype used) as [eo en].
+    pose proof (Hld full (raw full :: anc) (opt_truthy eo) (opt_truthy en) (parse W t0) (raw full :: tr)) as Hx.
+    unfold extends in Hx.
+    destruct (ld _ _ _ _ _ _) as [[rules tr2] | e tr2 | ]; simpl in Hx.
+    + destruct (finish_encoding W eo en rules); [simpl | rewrite raise_trace]; intros H; inversion H; subst;
+        eapply suffix_cons; apply Hx; reflexivity.
+    + rewrite raise_trace. intros H; inversion H; subst. eapply suffix_cons; apply Hx; reflexivity.
+    + simpl. discriminate.
+  - rewrite raise_trace. intros H; inversion H; apply suffix_step.
+Qed.
+
+Lemma items_loop_extends ld W cwd base anc override newenc :
+  ld_extends ld ->
+  forall items expected acc tr, extends (items_loop ld W cwd base anc override newenc items expected acc tr) tr.
+Proof.
+  intros Hld. induction items as [ | it rest IH]; intros expected acc tr; simpl.
+  - intros t H. inversion H. apply suffix_refl.
+  - destruct it as [h media | u | sel p | t0]; try apply IH.
+    + pose proof (set_href_extends ld W cwd base anc override (parent_encoding newenc acc) h tr Hld) as H1.
+      destruct (set_href ld W cwd base anc override (parent_encoding newenc acc) h tr) as [[l tr1] | e tr1 | ].
+      * assert (S1 : suffix tr tr1) by (apply H1; reflexivity).
+        assert (K : forall ex ac, extends (items_loop ld W cwd base anc override newenc rest ex ac tr1) tr).
+        { intros ex ac t Ht. eapply suffix_trans; [exact S1 | apply (IH ex ac tr1 t Ht)]. }
+        destruct (negb (nonempty (raw h))); [apply K|].
+        destruct (N.ltb 1 expected); [apply K|].
+        destruct (l_found l); [apply K|].
+        pose proof (set_href_extends ld W cwd base anc override
+                      (parent_encoding newenc (acc ++ [mk_import h media l])) h tr1 Hld) as H2.
+        destruct (set_href ld W cwd base anc override _ h tr1) as [[l2 tr2] | e tr2 | ].
+        -- assert (S2 : suffix tr1 tr2) by (apply H2; reflexivity).
+           intros t Ht. eapply suffix_trans; [exact S1|]. eapply suffix_trans; [exact S2|]. apply (IH _ _ tr2 t Ht).
+        -- intros t Ht. inversion Ht; subst. eapply suffix_trans; [exact S1|]. apply H2. reflexivity.
+        -- intros t Ht. discriminate Ht.
+      * intros t Ht. inversion Ht; subst. apply H1. reflexivity.
+      * intros t Ht. discriminate Ht.
+    + destruct (N.ltb 2 expected); apply IH.
+Qed.
+
+Lemma parse_src_extends W cwd fuel : ld_extends (loader_at fuel W cwd).
+Proof.
+  induction fuel as [ | f IH]; intros full anc o n sr t; unfold loader_at; simpl.
+  - intros t0 H. discriminate H.
+  - apply items_loop_extends. exact IH.
+Qed.
+
+(* two worlds with the same codec / parser / validation *)
+Definition same_env (W W' : world) : Prop :=
+  (forall c, detect W' c = detect W c) /\ (forall b e, decode W' b e = decode W b e) /\
+  (forall t, parse W' t = parse W t) /\ (forall e, enc_norm W' e = enc_norm W e).
+
+(* ... whose fetchers answer alike at every call recorded in `tr` (url and the calls made before it) *)
+Definition agree (W W' : world) (tr : trace) : Prop :=
+  forall tr0 u, suffix (u :: tr0) tr -> fetch W' tr0 u = fetch W tr0 u.
+
+Lemma agree_suffix W W' t tr : agree W W' tr -> suffix t tr -> agree W W' t.
+Proof. intros H S tr0 u Hs. apply H. eapply suffix_trans; eauto. Qed.
+
+Lemma readurl_same W W' override parent o : same_env W W' -> readurl W' override parent o = readurl W override parent o.
+Proof.
+  intros [Hd [Hc _]]. unfold readurl. destruct o as [ | | | http c | e]; try reflexivity.
+  rewrite Hd. destruct (detect W c) as [cenc explicit]. destruct (ladder _ _ _ _ _) as [enctype en].
+  destruct c as [t | b]; [reflexivity|]. rewrite Hc. reflexivity.
+Qed.
+
+Lemma finish_encoding_same W W' eo en rules : same_env W W' -> finish_encoding W' eo en rules = finish_encoding W eo en rules.
+Proof.
+  intros [_ [_ [_ He]]]. unfold finish_encoding, set_encoding.
+  destruct (opt_truthy eo), (opt_truthy en); try reflexivity; rewrite He; reflexivity.
+Qed.
+
+(* ld' is the loader of the other world: equal wherever the fetchers agree on the calls made *)
+Definition ld_same (W W' : world) (ld ld' : loader) : Prop :=
+  forall full anc o n sr t tR, rtrace (ld full anc o n sr t) = Some tR -> agree W W' tR ->
+                               ld' full anc o n sr t = ld full anc o n sr t.
+
+Lemma set_href_same ld ld' W W' cwd base anc override parent h tr tR :
+  same_env W W' -> ld_extends ld -> ld_same W W' ld ld' ->
+  rtrace (set_href ld W cwd base anc override parent h tr) = Some tR -> agree W W' tR ->
+  set_href ld' W' cwd base anc override parent h tr = set_href ld W cwd base anc override parent h tr.
+Proof.
+  intros He Hx Hs. unfold set_href.
+  destruct (negb (nonempty (raw h))); [reflexivity|].
+  destruct (urljoin _ h) as [full|]; [ | reflexivity].
+  destruct (cycle_guard && mem_str (raw full) anc); [reflexivity|].
+  intros Ht Ha.
+  assert (Hf : fetch W' tr (raw full) = fetch W tr (raw full)).
+  { apply Ha. revert Ht.
+    destruct (readurl W override parent _) as [ | used enctype t0 | e].
+    - rewrite raise_trace. intros H; inversion H. apply suffix_refl.
+    - destruct (split_enc enctype used) as [eo en].
+      pose proof (Hx full (raw full :: anc) (opt_truthy eo) (opt_truthy en) (parse W t0) (raw full :: tr)) as Hxx.
+      unfold extends in Hxx.
+      destruct (ld _ _ _ _ _ _) as [[rules tr2] | e tr2 | ]; simpl in Hxx.
+      + destruct (finish_encoding W eo en rules); [simpl | rewrite raise_trace]; intros H; inversion H; subst;
+          apply Hxx; reflexivity.
+      + rewrite raise_trace. intros H; inversion H; subst. apply Hxx; reflexivity.
+      + simpl. discriminate.
+    - rewrite raise_trace. intros H; inversion H. apply suffix_refl. }
+  rewrite Hf, (readurl_same W W' _ _ _ He). revert Ht.
+  destruct (readurl W override parent _) as [ | used enctype t0 | e]; try (intros _; reflexivity).
+  destruct (split_enc enctype used) as [eo en].
+  destruct He as [Hd [Hc [Hp Hn]]]. rewrite Hp.
+  specialize (Hs full (raw full :: anc) (opt_truthy eo) (opt_truthy en) (parse W t0) (raw full :: tr)).
+  destruct (ld full _ _ _ _ _) as [[rules tr2] | e tr2 | ] eqn:El; simpl in Hs.
+  - intros Ht.
+    assert (Et : tR = tr2).
+    { destruct (finish_encoding W eo en rules); [simpl in Ht | rewrite raise_trace in Ht]; inversion Ht; reflexivity. }
+    subst tR. rewrite (Hs tr2 eq_refl Ha).
+    rewrite (finish_encoding_same W W' eo en rules (conj Hd (conj Hc (conj Hp Hn)))). reflexivity.
+  - rewrite raise_trace. intros Ht. inversion Ht; subst tR. rewrite (Hs tr2 eq_refl Ha). reflexivity.
+  - simpl. discriminate.
+Qed.
+
+Lemma items_loop_same ld ld' W W' cwd base anc override newenc :
+  same_env W W' -> ld_extends ld -> ld_same W W' ld ld' ->
+  forall items expected acc tr tR,
+    rtrace (items_loop ld W cwd base anc override newenc items expected acc tr) = Some tR -> agree W W' tR ->
+    items_loop ld' W' cwd base anc override newenc items expected acc tr =
+    items_loop ld W cwd base anc override newenc items expected acc tr.
+Proof.
+  intros He Hx Hs. induction items as [ | it rest IH]; intros expected acc tr tR; simpl; [reflexivity|].
+  destruct it as [h media | u | sel p | t0]; try apply IH.
+  2:{ destruct (N.ltb 2 expected); apply IH. }
+  intros Ht Ha.
+  pose proof (set_href_extends ld W cwd base anc override (parent_encoding newenc acc) h tr Hx) as E1.
+  pose proof (set_href_same ld ld' W W' cwd base anc override (parent_encoding newenc acc) h tr) as S1.
+  destruct (set_href ld W cwd base anc override (parent_encoding newenc acc) h tr) as [[l tr1] | e tr1 | ] eqn:R1.
+  - (* the calls of the first load are among those of the whole result *)
+    assert (Sx : suffix tr1 tR).
+    { revert Ht.
+      destruct (negb (nonempty (raw h))); [apply (items_loop_extends ld W cwd base anc override newenc Hx)|].
+      destruct (N.ltb 1 expected); [apply (items_loop_extends ld W cwd base anc override newenc Hx)|].
+      destruct (l_found l); [apply (items_loop_extends ld W cwd base anc override newenc Hx)|].
+      pose proof (set_href_extends ld W cwd base anc override
+                    (parent_encoding newenc (acc ++ [mk_import h media l])) h tr1 Hx) as E2.
+      destruct (set_href ld W cwd base anc override _ h tr1) as [[l2 tr2] | e tr2 | ].
+      - intros Ht. eapply suffix_trans; [apply E2; reflexivity|].
+        apply (items_loop_extends ld W cwd base anc override newenc Hx _ _ _ _ _ Ht).
+      - intros Ht. inversion Ht; subst. apply E2. reflexivity.
+      - discriminate. }
+    rewrite (S1 tr1 He Hx Hs eq_refl (agree_suffix _ _ _ _ Ha Sx)).
+    destruct (negb (nonempty (raw h))); [apply (IH _ _ _ tR Ht Ha)|].
+    destruct (N.ltb 1 expected); [apply (IH _ _ _ tR Ht Ha)|].
+    destruct (l_found l); [apply (IH _ _ _ tR Ht Ha)|].
+    pose proof (set_href_extends ld W cwd base anc override
+                  (parent_encoding newenc (acc ++ [mk_import h media l])) h tr1 Hx) as E2.
+    pose proof (set_href_same ld ld' W W' cwd base anc override
+                  (parent_encoding newenc (acc ++ [mk_import h media l])) h tr1) as S2.
+    destruct (set_href ld W cwd base anc override _ h tr1) as [[l2 tr2] | e tr2 | ] eqn:R2.
+    + assert (Sy : suffix tr2 tR) by (apply (items_loop_extends ld W cwd base anc override newenc Hx _ _ _ _ _ Ht)).
+      rewrite (S2 tr2 He Hx Hs eq_refl (agree_suffix _ _ _ _ Ha Sy)). apply (IH _ _ _ tR Ht Ha).
+    + inversion Ht; subst. rewrite (S2 tR He Hx Hs eq_refl Ha). reflexivity.
+    + discriminate Ht.
+  - inversion Ht; subst. rewrite (S1 tR He Hx Hs eq_refl Ha). reflexivity.
+  - discriminate Ht.
+Qed.
+
+Lemma parse_src_same W W' cwd fuel :
+  same_env W W' -> ld_same W W' (loader_at fuel W cwd) (loader_at fuel W' cwd).
+Proof.
+  intros He. induction fuel as [ | f IH]; intros full anc o n sr t tR; unfold loader_at; simpl; [reflexivity|].
+  apply (items_loop_same _ _ W W' cwd (Some full) anc o n He (parse_src_extends W cwd f) IH).
+Qed.
+
+Lemma only_fetcher_called_lemma W W' fuel cwd base override sr tR :
+  same_env W W' ->
+  rtrace (parse_string fuel W cwd base override sr) = Some tR -> agree W W' tR ->
+  parse_string fuel W' cwd base override sr = parse_string fuel W cwd base override sr.
+Proof.
+  intros He. unfold parse_string.
+  pose proof (parse_src_same W W' cwd fuel He (match base with Some b => b | None => cwd end)) as Hs.
+  destruct fuel as [ | f]; [reflexivity|]. simpl.
+  pose proof (items_loop_same (loader_at f W cwd) (loader_at f W' cwd) W W' cwd base (top_chain base)
+                (opt_truthy override) None He (parse_src_extends W cwd f) (parse_src_same W W' cwd f He)
+                (s_items sr) (initial_expected sr) (initial_rules sr) []) as H.
+  unfold loader_at in H.
+  destruct (items_loop _ W cwd base _ _ _ _ _ _ _) as [[rules tr] | e tr | ] eqn:R.
+  - intros Ht Ha.
+    assert (tR = tr).
+    { destruct (finish_encoding W override None rules); simpl in Ht; inversion Ht; reflexivity. }
+    subst. rewrite (H tr eq_refl Ha), (finish_encoding_same W W' _ _ _ He). reflexivity.
+  - simpl. intros Ht Ha. inversion Ht; subst. rewrite (H tR eq_refl Ha). reflexivity.
+  - simpl. discriminate.
 Qed.
